@@ -619,7 +619,9 @@ pub fn run_property(prop: &dyn Property, tier: Tier, seed: u64) -> RunResult {
     let required = prop.required_labels();
     let mut rounds = 0usize;
     if violation.is_none() {
-        let cases = prop.cases(tier);
+        // VERIF_CASES_DIV: measuring aid for instrumented builds (tools/coverage.sh); no registered command sets it.
+        let div = std::env::var("VERIF_CASES_DIV").ok().and_then(|s| s.parse::<usize>().ok()).filter(|d| *d > 0).unwrap_or(1);
+        let cases = (prop.cases(tier) / div).max(SHARDS);
         loop {
             let per = cases.div_ceil(SHARDS);
             let results: Mutex<Vec<(usize, Stats, Option<Violation>)>> = Mutex::new(vec![]);
@@ -711,7 +713,12 @@ fn write_evidence(
     rounds: usize,
     missing: &[String],
 ) {
-    let dir = Path::new(VERIF_DIR).join("evidence");
+    // VERIF_EVIDENCE_DIR: measuring aid (tools/coverage.sh, soak runs) so that side runs do not overwrite the
+    // registered evidence; no registered command sets it.
+    let dir = match std::env::var("VERIF_EVIDENCE_DIR") {
+        Ok(d) if !d.is_empty() => std::path::PathBuf::from(d),
+        _ => Path::new(VERIF_DIR).join("evidence"),
+    };
     let _ = std::fs::create_dir_all(&dir);
     let mut samples = st.samples.clone();
     if samples.is_empty() {
